@@ -220,6 +220,62 @@ MUTANTS = [
     M("benign-dirnode-reads-readcap", DN,
       "        return self._node.get_size()\n",
       "        self._node.get_readcap()\n        return self._node.get_size()\n", None),
+    # ---- C13.8 the memo key is a function of the cap string the node is built from
+    M("memo-key-is-argument-tuple", NM,      # seeded C13-C
+      "        if deep_immutable:\n            memokey = b\"I\" + bigcap\n        else:\n            memokey = b\"M\" + bigcap\n",
+      "        memokey = (deep_immutable, writecap, readcap)\n", "C13.8"),
+    M("memo-key-appends-readcap", NM,
+      "            memokey = b\"M\" + bigcap\n", "            memokey = b\"M\" + bigcap + (readcap or b\"\")\n", "C13.8"),
+    M("memo-key-writecap-then-readcap", NM,
+      "            memokey = b\"M\" + bigcap\n",
+      "            memokey = (b\"M\", writecap) if writecap else (b\"M\", None, readcap)\n", "C13.8"),
+    M("benign-memokey-tuple-of-effective-cap", NM,
+      "        if deep_immutable:\n            memokey = b\"I\" + bigcap\n        else:\n            memokey = b\"M\" + bigcap\n",
+      "        memokey = (bool(deep_immutable), writecap or readcap)\n", None),
+    M("benign-memokey-by-branch-on-writecap", NM,
+      "        if deep_immutable:\n            memokey = b\"I\" + bigcap\n        else:\n            memokey = b\"M\" + bigcap\n",
+      "        prefix = b\"I\" if deep_immutable else b\"M\"\n        if writecap:\n            memokey = prefix + writecap\n"
+      "        else:\n            memokey = prefix + readcap\n", None),
+    M("memokey-branches-swapped", NM,
+      "        if deep_immutable:\n            memokey = b\"I\" + bigcap\n        else:\n            memokey = b\"M\" + bigcap\n",
+      "        prefix = b\"I\" if deep_immutable else b\"M\"\n        if readcap:\n            memokey = prefix + readcap\n"
+      "        else:\n            memokey = prefix + writecap\n", "C13.8"),
+    M("benign-memokey-conditional-cap", NM,
+      "            memokey = b\"M\" + bigcap\n", "            memokey = b\"M\" + (writecap if writecap else readcap)\n", None),
+    M("benign-bigcap-two-step", NM,
+      "        bigcap = writecap or readcap\n",
+      "        bigcap = writecap\n        if not bigcap:\n            bigcap = readcap\n", None),
+    M("benign-from-string-inline", NM,
+      "            cap = uri.from_string(bigcap, deep_immutable=deep_immutable,\n                                  name=name)\n"
+      "            node = self._create_from_single_cap(cap)\n",
+      "            node = self._create_from_single_cap(uri.from_string(bigcap, deep_immutable=deep_immutable,\n"
+      "                                                                name=name))\n", None),
+    # ---- C13.9 nothing inside a serialised region re-enters the serialiser
+    M("retry-through-public-get-servermap", FN,      # seeded C13-D
+      "            failure.trap(NotEnoughSharesError)\n\n            d = self.get_best_mutable_version()\n",
+      "            failure.trap(NotEnoughSharesError)\n\n            d = self.get_servermap(MODE_WRITE)\n"
+      "            d.addCallback(self.get_best_mutable_version)\n", "C13.9"),
+    M("region-helper-uses-public-get-servermap", FN,
+      "            d = defer.succeed(servermap)\n        else:\n            d = self._get_servermap(mode)\n",
+      "            d = defer.succeed(servermap)\n        else:\n            d = self.get_servermap(mode)\n", "C13.9"),
+    M("version-modify-downloads-through-serialized-read", FN,
+      "        d = self._try_to_download_data()\n        def _apply(old_contents):\n",
+      "        d = self.download_to_data(fetch_privkey=True)\n        def _apply(old_contents):\n", "C13.9"),
+    M("version-retry-asks-node-for-servermap", FN,
+      "            d = self._update_servermap(mode=MODE_CHECK)\n",
+      "            d = self._node.get_servermap(MODE_CHECK)\n"
+      "            d.addCallback(lambda smap: setattr(self, \"_servermap\", smap))\n", "C13.9"),
+    M("publish-confirms-through-node-servermap", "src/allmydata/mutable/publish.py",
+      "        self._node.set_downloader_hints(hints)\n        eventually(self.done_deferred.callback, None)\n",
+      "        self._node.set_downloader_hints(hints)\n        d = self._node.get_servermap(MODE_CHECK)\n"
+      "        d.addCallback(lambda ign: eventually(self.done_deferred.callback, None))\n", "C13.9"),
+    M("benign-retry-calls-get-mutable-version", FN,
+      "            failure.trap(NotEnoughSharesError)\n\n            d = self.get_best_mutable_version()\n",
+      "            failure.trap(NotEnoughSharesError)\n\n            d = self.get_mutable_version()\n", None),
+    M("benign-modify-once-inlines-unserialized-download", FN,
+      "        d = self._try_to_download_data()\n        def _apply(old_contents):\n",
+      "        c = consumer.MemoryConsumer()\n        d = self._read(c, fetch_privkey=True)\n"
+      "        d.addCallback(lambda mc: b\"\".join(mc.chunks))\n        def _apply(old_contents):\n", None),
     # ---- vanished anchor
     M("vanish-create-from-cap", NM,
       "    def create_from_cap(self, writecap, readcap=None,", "    def create_from_capX(self, writecap, readcap=None,",
